@@ -20,10 +20,14 @@ CHECKS = {
                 text="All 84 admission classes appear in every tier; each request's result class, victim, post-state and 'no trace' are compared with the table given the observed pre-state.", ref="4 C05"),
     "C06": dict(level="exploration", tech="runtime monitoring: FIFO oracle over recorded Created/Start of all jobs + waiting-list equality with the model after every step",
                 text="Histories with up to ~15 waiting jobs, cancels in the middle of the queue, unstartable heads, concurrency 1-3.", ref="4 C06"),
+    "C07": dict(level="exploration", tech="runtime monitoring with REAL timers: monotonic timestamp arithmetic (lower bound), logical quiescence after observed delay-handler return (hook H2) for 'no additional delay', replaced-never-runs / newest-runs oracles over the event log",
+                text="Bursts of 1-8 requests with gaps around the delay, busy and idle pipelines, cancels inside the burst, 4-client stress bursts; plus logically fired delays in conformance histories.", ref="4 C07"),
     "C08": dict(level="exploration", tech="runtime monitoring: driver-chosen task outcomes as ground truth, task-level simulation vs tasks inside the monitored runner after every step, predicted verdict vs terminal ReadJob snapshot and /job/detail JSON",
                 text="Failure/allow_failure/non-exit-error assignments x both fail-fast settings x release orders x external cancels; verdict soundness (plain success only if all tasks succeeded or failed with allow_failure) is checked on every finished job.", ref="4 C08"),
     "C15": dict(level="exploration", tech="runtime monitoring: API flags (schedulable/running) vs outcome of the next request and vs job list at every quiescent step",
                 text="The schedulable flag is read immediately before every schedule request of the history and compared with what the request then returns; running flag, presence, ordering and timestamps are checked on every snapshot.", ref="4 C15"),
+    "C16": dict(level="exploration", tech="runtime monitoring: the monitored runner records the task.Task actually handed to it (commands, env, variables); compared with a deep copy of the definition taken when the schedule request returned; reload operations inside conformance histories (also with the loop parked between tasks via H1)",
+                text="13 mutation operators applied at every point of a job's life; job list deep-equal across ReplaceDefinitions; per-job delay honoured; nothing stranded for pipelines that remain defined.", ref="4 C16"),
 }
 
 NOT_YET = "check not built yet (framework under construction; see DESIGN.md section 4)"
